@@ -290,4 +290,13 @@ theorem duplicates_perm {v v' : View} (hp : VPerm v v') (hs : sortable v.eids = 
     have hst : sortable (twins v e) = true := sortable_of_subset (fun x hx => (List.mem_filter.1 hx).1) hs
     rw [ht.length_eq, keptOf_perm ht hst])
 
+/-- in a well-formed network an edge has at most as many members as there are nodes -/
+theorem size_le_nodes {h : Net} (hw : h.WF) (e : PyId) : size (view h) e ≤ (view h).nodes.length := by
+  simp only [size, view, Net.members]
+  cases hf : h.edges.find? (·.1 = e) with
+  | none => simp
+  | some q =>
+    have hq := hw.2.2 q (List.mem_of_find?_eq_some hf)
+    simpa using (List.subperm_of_subset hq.1 (fun n hn => hq.2 n hn)).length_le
+
 end Xgi.C09
